@@ -9,6 +9,8 @@ def hexDigit (n : Nat) : Char := if n < 10 then Char.ofNat (48 + n) else Char.of
 def hex16 (b : Nat) : String := String.ofList ((List.range 16).map (fun i => hexDigit (b / 16 ^ (15 - i) % 16)))
 
 def fbits (b : Nat) : String := if isNaN b then "fnan" else "f" ++ hex16 b
+def cpart (b : Nat) : String := if isNaN b then "nan" else hex16 b
+def cbits (re im : Nat) : String := "c" ++ cpart re ++ ":" ++ cpart im
 
 def Err.py : Err → String
   | .zeroDiv => "E:ZeroDivisionError" | .value => "E:ValueError"
@@ -17,6 +19,7 @@ def Err.py : Err → String
 def encObj : Obj → String
   | .int v => s!"i{v}" | .big v => s!"b{v}" | .bool b => if b then "t1" else "t0"
   | .float b => "f" ++ hex16 b
+  | .cplx re im => "c" ++ hex16 re ++ ":" ++ hex16 im
   | .none => "n" | _ => "?"
 
 partial def objV : Obj → String
@@ -26,11 +29,14 @@ partial def objV : Obj → String
   | .str s => "s" ++ s
   | .pair a b => s!"({objV a}, {objV b})"
   | .none => "None" | .notImpl => "NotImplemented"
+  | .cplx re im => cbits re im
+  | .cplxOpaque => "complex"
 
 partial def objR : Obj → String
   | .int _ => "i" | .big _ => "b" | .bool _ => "t" | .float _ => "f" | .str _ => "s"
   | .pair a b => objR a ++ objR b
   | .none => "n" | .notImpl => "N"
+  | .cplx _ _ | .cplxOpaque => "c"
 
 partial def svalV : SVal → String
   | .int v => toString v
@@ -38,6 +44,8 @@ partial def svalV : SVal → String
   | .float b => fbits b
   | .str s => "s" ++ s
   | .pair a b => s!"({svalV a}, {svalV b})"
+  | .cplx re im => cbits re im
+  | .cplxAny => "complex"
 
 def resV : Res → String | .error e => e.py | .ok o => objV o
 def resR : Res → String | .error _ => "-" | .ok o => objR o
@@ -49,6 +57,7 @@ def fp : FP := FP.native
 def ntObj : Obj → Bool
   | .int v | .big v => v.natAbs ≥ 2^53
   | .float b => expField b = 0 || expField b = 2047 || expField b ≥ 1075 || (fracField b % 2^51 == 0 && expField b < 1075 && expField b > 1020)
+  | .cplx _ _ => true
   | _ => false
 
 def mkCase (input : String) (m : Res) (s : SRes) (ops : List Obj) (always : Bool) (kf : Option String) (noR : Bool := false) : Case :=
@@ -58,6 +67,14 @@ def mkCase (input : String) (m : Res) (s : SRes) (ops : List Obj) (always : Bool
 
 def isFloatObj : Obj → Bool | .float _ => true | _ => false
 def isBoolObj : Obj → Bool | .bool _ => true | _ => false
+def isCplxObj : Obj → Bool | .cplx _ _ => true | _ => false
+/-- a float or complex operand: the other operand may then be a bool (no int×bool arithmetic here: C07-K01) -/
+def isFC (o : Obj) : Bool := isFloatObj o || isCplxObj o
+/-- negative finite base with a finite non-integer exponent: Python answers with a complex number -/
+def powComplex (a b : Obj) : Bool :=
+  match convertToFloat a, convertToFloat b with
+  | some x, some y => fp.lt x 0 && !isInf x && !isInf y && !isNaN y && fp.floor y != y
+  | _, _ => false
 
 /-- pow is compared only where the IEEE result is exact (Go's math.Pow and libm agree there) -/
 def powExact (a b : Obj) : Bool :=
@@ -74,34 +91,28 @@ def caseBin (op : BinOp) (a b : Obj) : Option Case :=
   match numOf a, numOf b with
   | some x, some y =>
     -- both bool / bool with int: C07-K01 territory
-    if (isBoolObj a && !isFloatObj b) || (isBoolObj b && !isFloatObj a) then none else
+    if (isBoolObj a && !isFC b) || (isBoolObj b && !isFC a) then none else
+    -- complex operands: only + - * are specified by value here
+    if (isCplxObj a || isCplxObj b) && !(op == .add || op == .sub || op == .mul) then none else
     if op == .pow && !(match x, y with | .i _, .i w => w < 0 || w ≤ 8 | _, _ => true) then none else
-    if op == .pow && !powExact a b && !(match x, y with | .i _, .i w => w ≥ 0 | _, _ => false) then none else
-    let kf :=
-      if kfHugeIntArith a b && op != .truediv then some "C15-K01"
-      else if op == .truediv && kfIntTrueDiv a b then some "C15-K02"
-      else if op == .pow then
-        (match convertToFloat a, convertToFloat b with
-         | some fx, some fy => if kfPow fp fx fy && !(match x, y with | .i _, .i w => w ≥ 0 | _, _ => false) then some "C15-K03" else none
-         | _, _ => none)
-      else none
+    if op == .pow && !powExact a b && !powComplex a b && !(match x, y with | .i _, .i w => w ≥ 0 | _, _ => false) then none else
     let intint := match x, y with | .i _, .i _ => true | _, _ => false
     some (mkCase s!"bin {op.name} {encObj a} {encObj b}" (binop fp op a b) (specBin fp op x y) [a, b]
-      (op == .floordiv || op == .mod) kf (noR := intint))
+      (op == .floordiv || op == .mod) none (noR := intint && op != .truediv))
   | _, _ => none
 
 def caseCmp (op : CmpOp) (a b : Obj) : Option Case :=
   match numOf a, numOf b with
   | some x, some y =>
-    if (isBoolObj a && !isFloatObj b) || (isBoolObj b && !isFloatObj a) then none else
+    if (isBoolObj a && !isFC b) || (isBoolObj b && !isFC a) then none else
     some (mkCase s!"bin {op.name} {encObj a} {encObj b}" (richCmp fp op a b) (specCmp fp op x y) [a, b] false none)
   | _, _ => none
 
 def caseDivmod (a b : Obj) : Option Case :=
   match numOf a, numOf b with
   | some x, some y =>
-    if isBoolObj a || isBoolObj b then none else
-    let kf := if kfHugeIntArith a b then some "C15-K01" else none
+    if isBoolObj a || isBoolObj b || isCplxObj a || isCplxObj b then none else
+    let kf : Option String := none
     let intint := match x, y with | .i _, .i _ => true | _, _ => false
     some (mkCase s!"bin divmod {encObj a} {encObj b}" (divmod fp a b) (specDivmod fp x y) [a, b] true kf (noR := intint))
   | _, _ => none
@@ -122,9 +133,15 @@ def specUn (op : UnOp) (a : Num) : SRes :=
   | .i v, .int => .ok (.int v)
   | .i v, .float => (specIntToFloat v).map .float
   | .i v, .str => .ok (.str (toString v))
+  | .c re im, .neg => .ok (.cplx (if signBit re then re - 2^63 else re + 2^63) (if signBit im then im - 2^63 else im + 2^63))
+  | .c re im, .pos => .ok (.cplx re im)
+  | .c re im, .bool => .ok (.bool (!(isZero re && isZero im)))
+  | .c _ _, .int | .c _ _, .float => .error .type
+  | .c _ _, _ => .ok .cplxAny
 
 def caseUn (op : UnOp) (a : Obj) : Option Case :=
   if isBoolObj a then none else
+  if isCplxObj a && (op == .abs || op == .str) then none else
   match numOf a with
   | some x => some (mkCase s!"un {op.name} {encObj a}" (unop op a) (specUn op x) [a] (op == .str || op == .int || op == .float) none
       (noR := !isFloatObj a && (op == .neg || op == .abs)))
@@ -147,7 +164,8 @@ def caseRound (a : Obj) (nd : Option Int) : Option Case :=
   | _ => none
 
 def svalNum : SVal → Option Num
-  | .int v => some (.i v) | .float b => some (.f b) | .bool b => some (.i (if b then 1 else 0)) | _ => none
+  | .int v => some (.i v) | .float b => some (.f b) | .bool b => some (.i (if b then 1 else 0))
+  | .cplx re im => some (.c re im) | _ => none
 
 /-- builtins are folds of the operators -/
 def caseSum (xs : List Obj) : Option Case :=
@@ -158,7 +176,7 @@ def caseSum (xs : List Obj) : Option Case :=
       match svalNum acc with
       | some a => specBin fp .add a n
       | none => .error .type) (.int 0)
-    let kf := if (xs.zip (xs.drop 1)).any (fun (a, b) => kfHugeIntArith a b) || xs.any (fun o => kfHugeIntArith o (.float 0)) then some "C15-K01" else none
+    let kf : Option String := none
     some (mkCase ("bi sum " ++ " ".intercalate (xs.map encObj)) (builtinSum fp xs) s xs true kf (noR := true))
   | none => none
 
@@ -169,7 +187,7 @@ def caseMinMax (isMax : Bool) (xs : List Obj) : Option Case :=
     let s : Except Err Num := ns.foldlM (fun best item => do
       let c ← specCmp fp (if isMax then .ge else .le) item best
       return if c == .bool true then item else best) n0
-    let sres : SRes := s.map (fun n => match n with | .i v => .int v | .f b => .float b)
+    let sres : SRes := s.map (fun n => match n with | .i v => .int v | .f b => .float b | .c re im => .cplx re im)
     some (mkCase ((if isMax then "bi max " else "bi min ") ++ " ".intercalate (xs.map encObj)) (builtinMinMax fp isMax xs) sres xs true none (noR := true))
   | _ => none
 
@@ -201,8 +219,17 @@ def latticeInts : List Int := [
 def repsOf (v : Int) : List Obj :=
   if IntMin ≤ v ∧ v ≤ IntMax then [Obj.int v] else [Obj.big v]
 
+/-- complex lattice: signed zeros in either part, 2^53 / 2^63 / 2^64 real parts (exact comparison with ints),
+max, inf and nan parts -/
+def latticeCplx : List Obj := [
+  .cplx 0x3ff0000000000000 0x4000000000000000, .cplx 0x3ff0000000000000 0x8000000000000000, .cplx 0x8000000000000000 0,
+  .cplx 0 0, .cplx 0 0x3ff0000000000000, .cplx 0xbff0000000000000 0, .cplx 0x3ff8000000000000 0xc004000000000000,
+  .cplx 0x4340000000000000 0, .cplx 0x4340000000000000 0x3ff0000000000000, .cplx 0x43e0000000000000 0, .cplx 0xc3e0000000000000 0x8000000000000000,
+  .cplx 0x43f0000000000000 0, .cplx 0x7fe0000000000000 0, .cplx 0x7fefffffffffffff 0x7fefffffffffffff,
+  .cplx 0x7ff0000000000000 0x3ff0000000000000, .cplx 0x3ff0000000000000 0xfff0000000000000, .cplx 0x7ff8000000000000 0, .cplx 0 0x7ff8000000000000 ]
+
 def latticeObjs : List Obj :=
-  latticeFloats.map Obj.float ++ latticeInts.flatMap repsOf ++ [Obj.big 5, Obj.big (2^53 + 1), Obj.bool true, Obj.bool false]
+  latticeFloats.map Obj.float ++ latticeInts.flatMap repsOf ++ [Obj.big 5, Obj.big (2^53 + 1), Obj.bool true, Obj.bool false] ++ latticeCplx
 
 def randFloat (r : Rng) : Rng × Nat :=
   let (r, k) := r.nat 4
@@ -213,6 +240,13 @@ def randFloat (r : Rng) : Rng × Nat :=
     -- exponent near 0 .. 70 so that ints and floats interact
     let (r, e) := r.nat 140
     (r, (b / 2^63) * 2^63 + (1023 - 70 + e) * 2^52 + b % 2^52)
+
+def randCplx (r : Rng) : Rng × Obj :=
+  let (r, re) := randFloat r
+  let (r, k) := r.nat 3
+  if k == 0 then (r, .cplx re 0)
+  else if k == 1 then (r, .cplx re 0x8000000000000000)
+  else let (r, im) := randFloat r; (r, .cplx re im)
 
 def randInt (r : Rng) : Rng × Int :=
   let (r, k) := r.nat 8
@@ -242,7 +276,7 @@ def genMain (tier : String) (seed : Nat) : IO Unit := do
   -- every lattice pair with at least one float (int × int belongs to C07, except / and ** negative)
   for a in objs do
     for b in objs do
-      if isFloatObj a || isFloatObj b then allFor a b
+      if isFC a || isFC b then allFor a b
       else
         emit (caseBin .truediv a b)
         emit (caseCmp .eq a b)
@@ -266,6 +300,7 @@ def genMain (tier : String) (seed : Nat) : IO Unit := do
   let pick : List Obj := few.filter (fun o => match o with
     | .float b => [0x8000000000000000, 0x0, 0x3ff0000000000000, 0x3fb999999999999a, 0x4340000000000000, 0x43e0000000000000, 0x7fefffffffffffff, 0x7ff0000000000000, 0xfff0000000000000, 0x7ff8000000000000, 0xc004000000000000].contains b
     | .int v | .big v => [0, 1, -3, 2^53 + 1, 2^63, 2^64 + 2^11 + 1, 2^1024].contains v
+    | .cplx re im => (re, im) == (0x3ff0000000000000, 0x4000000000000000) || (re, im) == (0x4340000000000000, 0)
     | _ => false)
   for a in pick do
     emit ((caseUn .abs a).map (fun c => { c with input := "bi abs " ++ encObj a }))
@@ -289,7 +324,14 @@ def genMain (tier : String) (seed : Nat) : IO Unit := do
     let (r2, b) := randObj r1
     let (r3, f) := randFloat r2
     let (r4, k) := r3.nat 40
-    r := r4
+    let (r5, c1) := randCplx r4
+    let (r6, c2) := randCplx r5
+    r := r6
+    allFor c1 b
+    allFor a c1
+    allFor c1 c2
+    for op in UnOp.all do emit (caseUn op c1)
+    emit (caseSum [a, c1, .float f])
     allFor a b
     allFor (.float f) b
     allFor a (.float f)
